@@ -17,7 +17,7 @@ CHECKS = {
  "C02": ("for every field value and every combination of the symbolic Skip* writer flags on the enumerated templates, the solver shows that an index-based read returns the scan's sequence, or falls back, or errors - never fewer messages silently - and that every attachment/metadata index entry retrieves identical content", "DESIGN.md §4 C02"),
  "C03": ("for every assignment of 64-bit log times to the messages of multi-chunk files (bounded message/chunk counts) the solver shows sortedness, exactly-once, in-chunk tie order and repeatability of both time-ordered reads of the real indexed iterator", "DESIGN.md §4 C03"),
  "C04": ("for every window [start,end) with start<=end (64-bit symbolic), every log-time assignment, the enumerated topic sets, both iterators, three orders and nine spellings of the window, the solver shows the returned set is exactly the filter of the written messages", "DESIGN.md §4 C04"),
- "C10": ("for every byte string up to the stated length (length itself symbolic) each leaf parser is shown panic-free and within the allocation ceiling; (lexer step and indexed-reader units: see evidence bounds)", "DESIGN.md §4 C10"),
+ "C10": ("for every byte string up to the stated lengths (length itself symbolic): each of 16 leaf parsers, one step of the lexer from a state partitioned by the opcode ahead and the option set (incl. caller-configured record/chunk limits, attachments with and without callback, record lengths up to 2^64-1), readRecord, and the whole Reader API on a written file with one hostile length/offset/size field are shown free of panics, process exits, non-terminating loops (per-loop unwinding bound) and allocations above the ceiling in force", "DESIGN.md §4 C10, §9"),
  "C08": ("for every log time (64 bit), every string/payload byte and the symbolic Skip* flags on the enumerated templates and multi-chunk files (incl. chunks that hold no message), the solver shows that Writer.Statistics, the statistics record and Info.Statistics equal the aggregates of what was written, that chunk index time ranges are exact, and that Info lists every channel, schema, chunk, attachment index and metadata index the configuration keeps", "DESIGN.md §4 C08"),
  "C07": ("with every byte of one chunk's stored payload replaced by a fresh symbolic byte at once (any alteration that keeps the length), a validating lexer is shown to return the records before the damaged chunk unchanged and then an error or an invalid-chunk token, never a record of the damaged chunk; with an attachment's CRC-covered bytes replaced likewise, computed and stored attachment CRC are shown to differ. Under the stated ideal-checksum assumption", "DESIGN.md §4 C07"),
  "C09": ("for every cut position (symbolic, the whole file covered by 16-byte cells) and every field value of the enumerated files, the solver shows that the lexer and the non-indexed iterator return a content-equal prefix of the uncut read, end with EOF or an error, never panic, and return every message of every chunk that lies completely before the cut", "DESIGN.md §4 C09"),
